@@ -74,7 +74,8 @@ def check_schema_vs_writer(facts, W, ty, sf, sts, wf, wts, versions, guards_list
     if worst is None:
         return "pass", f"writer ⊆ language of the schema in {n} environment(s)", n
     ok, v, word, a, b = worst
-    if any(isinstance(x, tuple) and x[0] == "RAW?" for x in rx.symbols(a) | rx.symbols(b)):
+    if word and any(isinstance(x, tuple) and x[0] in ("BULK", "RAW1") for x in word) and \
+            any(isinstance(x, tuple) and x[0] == "BYTES" for x in rx.symbols(b)):
         ok = None
     return ("violation" if ok is False else "undecided"), (f"at version {v} the writer emits [{rx.show_word(word)}] which a reader driven "
             f"by the schema cannot parse; writer: {rx.show(a)[:260]} ; schema describes: {rx.show(b)[:260]}"), n
